@@ -190,12 +190,12 @@ WITNESS_TESTS = {
 }
 
 
-def witness_search(pid, budget_s=600):
+def witness_search(pid, budget_s=600, tests=None):
     """after a failed proof (or an undecided run): run the recorded witness inputs and the small enumerative searches of this
     property against the REAL crates of /repo's working tree.  Returns a dict describing a failing input, or None.
     It can only ADD a concrete failing input to a violation report; it never turns a failed proof into a pass."""
     import subprocess
-    tests = WITNESS_TESTS.get(pid, [])
+    tests = tests if tests is not None else WITNESS_TESTS.get(pid, [])
     if not tests:
         return None
     env = dict(os.environ, CARGO_NET_OFFLINE='true', CARGO_TARGET_DIR=HARNESS_TARGET)
@@ -445,8 +445,22 @@ def main(argv):
     ev, viol, known, undecided, unit_runs = run_property(pid, a.tier, seed)
     extra = PROPS[pid].get('post')
     witness = None
+    bounded = PROPS[pid].get('bounded', [])
+    if bounded and not viol and not undecided:
+        # BOUNDED stand-in for an obligation that no contract within reach can express (labelled bounded, never counted as proved):
+        # recorded sessions replayed against the real code of the working tree
+        ev['coverage']['bounded_checks'] = []
+        for b in bounded:
+            try:
+                w = witness_search(pid, tests=[b['test']])
+                ev['coverage']['bounded_checks'].append({'test': b['test'], 'stands_in_for': b['covers'], 'bound': b['bound'], 'result': 'FAILED' if w else 'passed'})
+                if w and witness is None:
+                    witness = w
+                    witness['bounded_stand_in_for'] = b['covers']
+            except Exception as e:
+                ev['coverage']['bounded_checks'].append({'test': b['test'], 'result': 'not run: %s' % e})
     if a.tier == 'thorough':
-        if not viol and not undecided:
+        if not viol and not undecided and not witness:
             # (a) solver-seed / resource variation: the proofs must not depend on one lucky seed
             stab = []
             for un in PROPS[pid]['units']:
@@ -465,13 +479,14 @@ def main(argv):
             for un, r in km.items():
                 print('  kill-matrix %s: %d/%d mutants of %s killed, %d/%d benign edits verify%s' % (
                     un, r['killed'], r['total_mutants'], pid, r['benign_verify'], r['total_benign'], (' ATTENTION ' + str(r['attention'])) if r['attention'] else ''))
-        else:
-            # (c) witness search on the real code: adds a concrete failing input to the report when it finds one
-            try:
-                witness = witness_search(pid)
-            except Exception as e:
-                ev['coverage']['witness_search_error'] = str(e)
-            ev['coverage']['witness'] = witness
+    if (viol or undecided) and not witness:
+        # witness search on the real code (both tiers; it only runs on a failing or undecided tree): adds a concrete failing input
+        # to the report when it finds one among the recorded inputs / small enumerative searches of this property
+        try:
+            witness = witness_search(pid, budget_s=(600 if a.tier == 'thorough' else 180))
+        except Exception as e:
+            ev['coverage']['witness_search_error'] = str(e)
+        ev['coverage']['witness'] = witness
     ev['wall_s'] = round(ev['wall_s'], 2)
     os.makedirs(os.path.join(VERIF, 'evidence'), exist_ok=True)
     if undecided:
@@ -487,6 +502,12 @@ def main(argv):
         fd = load_findings()
         desc = next((x for x in fd['open'] if x['id'] == f.finding), {})
         print('KNOWN-FINDING: property=%s %s %s -- %s' % (pid, f.finding, f.oblig, desc.get('what', '')))
+    if witness and witness.get('bounded_stand_in_for') and not viol and not undecided:
+        path = write_replay(pid, a.tier, [], unit_runs, witness)
+        json.dump(ev, open(os.path.join(VERIF, 'evidence', pid + '.json'), 'w'), indent=1)
+        print('  bounded stand-in failed (%s): %s' % (witness['bounded_stand_in_for'], witness['failing_input'][:400]))
+        print('VIOLATION property=%s replay=%s' % (pid, path))
+        return 1
     if undecided and witness:
         # the verifier could not decide (unsupported construct, lost anchor, ...) but the real code fails on a concrete input
         path = write_replay(pid, a.tier, [], unit_runs, witness)
